@@ -304,7 +304,12 @@ func (vc *VC) evalBuiltin(st *State, call *ast.CallExpr, name string) []Term {
 	case "recover":
 		return []Term{IntLit(0)}
 	case "close":
-		vc.eval(st, call.Args[0])
+		ch := vc.eval(st, call.Args[0])
+		closed := vc.heapGet(st, "ghost$chanClosed", arrSort(SInt, SBool))
+		if vc.safe {
+			vc.assert(st, vc.oblName("close", exprText(vc, call.Args[0])), "safety", call.Pos(), "close of a closed or nil channel panics", And(Not(Eq(ch, IntLit(0))), Not(Select(closed, ch))))
+		}
+		vc.heapSet(st, "ghost$chanClosed", vc.nameTerm("chanClosed", Store(closed, ch, TTrue)))
 		return nil
 	case "print", "println":
 		return nil
@@ -401,19 +406,11 @@ func (vc *VC) libraryCall(st *State, call *ast.CallExpr, key string, fn *types.F
 	case "fmt.Sprintf", "fmt.Sprint", "fmt.Sprintln":
 		return one(vc.fresh("sprintf", SStr))
 	case "time.Now":
-		now := vc.heapGetDefault(st, "gl$$now", vc.initialNow())
-		t := vc.fresh("now", SInt)
-		st.assume(app(SBool, ">=", t, now))
-		st.assume(app(SBool, ">", t, IntLit(0)))
-		st.heap["gl$$now"] = t
-		return one(t)
+		// idealised clock: only sleeps and timers advance it; computation and lock
+		// acquisition take zero time (listed assumption)
+		return one(vc.heapGetDefault(st, "gl$$now", vc.initialNow()))
 	case "time.Since":
-		now := vc.heapGetDefault(st, "gl$$now", vc.initialNow())
-		t := vc.fresh("now", SInt)
-		st.assume(app(SBool, ">=", t, now))
-		st.assume(app(SBool, ">", t, IntLit(0)))
-		st.heap["gl$$now"] = t
-		return one(app(SInt, "-", t, a(0)))
+		return one(app(SInt, "-", vc.heapGetDefault(st, "gl$$now", vc.initialNow()), a(0)))
 	case "time.Sleep":
 		now := vc.heapGetDefault(st, "gl$$now", vc.initialNow())
 		t := vc.fresh("now", SInt)
